@@ -3,6 +3,7 @@ From Bobo Require Import Base.Prelude Base.History Model.Pattern Model.Run Model
 From Bobo Require Import Proofs.RunProofs Proofs.DeciderLemmas Proofs.DeciderProofs Proofs.StepProofs.
 From Bobo Require Import Model.Cluster Model.Converge Model.ConvergeC.
 From Bobo Require Import Proofs.RemoteProofs Proofs.RemoteWitness Proofs.ConvergeProofs Proofs.JoinProofs Proofs.LocalProofs Proofs.SimProofs.
+From Bobo Require Import Proofs.ConvergeExample.
 
 Section C05.
   Variable E : Type.
@@ -85,3 +86,12 @@ Print Assumptions C05_finished_is_absorbing.
 Print Assumptions C05_completed_is_absorbing.
 Print Assumptions C05_stale_update_refuted_unfixed.
 Print Assumptions C05_merged_message_refuted_unfixed.
+
+(* non-vacuity of C05_completed_is_absorbing / C05_finished_is_absorbing: a reachable (hence good) state of two
+   deciders, from which a legal execution - event b at instance 1 completes run 1000 there, then the OLD note
+   (run 1000 active at block 1) is delivered to instance 1 once more - leaves the run completed and not active *)
+Example C05_absorbing_nonvacuous :
+  good ev cx_owner cx_cfg cx_gen cx_c2 /\ csteps ev cx_owner cx_cfg cx_gen cx_c2 cx_c4 /\
+  cstatus cx_owner (c_st ev cx_c3 1) 1000 = Completed /\ cstatus cx_owner (c_st ev cx_c4 1) 1000 = Completed /\
+  rt_all (d_runs (c_st ev cx_c4 1)) = [].
+Proof. exact (conj cx_good2 (conj cx_csteps_more cx_completed)). Qed.
